@@ -252,6 +252,11 @@ fn gen_case(rng: &mut Rng, stats: &mut Stats, args: &Args) -> Case {
         cfg.max_inputs = rng.range(0, 4);
         cfg.max_depth = rng.range(1, 3) as u32;
         cfg.max_outputs = 2;
+        if rng.chance(1, 5) {
+            // wider values: the cone is syntactic, but the perturbation oracle evaluates the semantics
+            cfg.widths = vec![1, 4, 8, 16, 33, 65];
+            kind.push_str("+wide");
+        }
         gen_sys(&mut ctx, rng, &cfg)
     };
     let mut extra_roots: Vec<ExprRef> = vec![];
@@ -280,10 +285,19 @@ fn gen_case(rng: &mut Rng, stats: &mut Stats, args: &Args) -> Case {
         let k = rng.below(sys.states.len() as u64) as usize;
         if let Type::BV(w) = sys.states[k].symbol.get_type(&ctx) {
             let name = ctx.get_symbol_name(sys.states[k].symbol).unwrap().to_string();
-            let twin = ctx.bv_symbol(&name, w + 1);
-            let e = ctx.slice(twin, w - 1, 0);
-            sys.add_output(&mut ctx, "otwin".into(), e);
-            extra_roots.push(twin);
+            if rng.chance(1, 2) {
+                let twin = ctx.bv_symbol(&name, w + 1);
+                let e = ctx.slice(twin, w - 1, 0);
+                sys.add_output(&mut ctx, "otwin".into(), e);
+                extra_roots.push(twin);
+            } else {
+                // an array symbol with the name of a bit-vector state
+                let twin = ctx.array_symbol(&name, 1, w);
+                let i = ctx.bv_lit(&BitVecValue::from_u64(1, 1));
+                let e = ctx.array_read(twin, i);
+                sys.add_output(&mut ctx, "otwin".into(), e);
+                extra_roots.push(twin);
+            }
             kind.push_str("+twin");
         }
     }
